@@ -39,3 +39,22 @@ PROPS["C18"] = dict(
     technique="Lean 4 proof of the integer codecs + exact-arithmetic correspondence of the scaling step and decoders against the implementation",
     assumptions=["glibc pow(10, k), k ≤ 11, is exact"],
 )
+
+PROPS["C04"] = dict(
+    harnesses=[dict(name="C04", procs_quick=2, procs_thorough=16)],
+    rule=("(lat, lon): zone boundaries, band edges -80/84/56/64/72, Norway/Svalbard corners, each ±0..2 ulp, integer degrees, lon ±180/±540/1e17/inf, "
+          "NaN; setzone over [-5, 61]; (zone, northp, x, y) on / 1 ulp beyond / 100 km beyond each rectangle edge, both mgrslimits; transfers between "
+          "neighbouring zones and hemispheres incl. MATCH; zone strings over the alphabet 0-9 n s o r t h u i v + - space and NUL; EPSG around the "
+          "valid windows. non-trivial = no exception; distinct = distinct (op, leading bits of the arguments)"),
+    tolerances={"zone/hemisphere/accept-reject/strings/EPSG": "exact", "x, y": "model ± 2^-51 relative (false-origin addition)", "gamma, k": "bit-equal to the underlying projection's",
+                "closure": "20 nm (4 × documented 5 nm) within 30° of the central meridian", "transfer": "40 nm vs Reverse+Forward"},
+    level_text=("Theorems (all inputs): the zone rule on integer degrees (standard 6° zones, Norway and Svalbard exceptions, range 1..60), the eight range "
+                "tables equal the documented rectangles, CheckCoords accepts exactly the closed rectangles (widened by 100 km unless mgrslimits), "
+                "zone-string and EPSG round trips (finite: decide; EPSG: omega). The executable model of StandardZone / Forward bookkeeping / Reverse "
+                "acceptance / DecodeZone / EncodeZone / EPSG / same-zone Transfer is compared exactly with the implementation; closure, transfer "
+                "consistency and outputs-untouched-on-throw are oracles on the implementation. Partial: the 5 nm accuracy of the projections is C06/C11."),
+    level_note=("MGRS/UTMUPS constants, range tables (as C++ constant expressions evaluated by the translator), zonespec enum and EPSG constants regenerated "
+                "from the sources each run; strtol modelled by hand; projection kernels are parameters supplied by the implementation"),
+    technique="Lean 4 proof of the discrete rules + exact correspondence of the executable model against the implementation",
+    assumptions=["TransverseMercator::UTM()/PolarStereographic::UPS() are treated as kernels here (covered by C06/C11)"],
+)
